@@ -55,7 +55,7 @@ package resolver
 // C11: a directory's real path (symlinks resolved; it becomes the module identity when preserveSymlinks is
 // off) may only be the link target reported by the file system or the PARENT'S REAL path joined with the
 // base name - never a path that still goes through a link.
-//@ flow real-path-from-real-path C11: func=(resolverQuery).dirInfoUncached ; in=resolver ; site=store dirInfo.absRealPath ; valuepath=call Symlink(*)|call Join(r.Resolver.fs,[phi:parentInfo.absRealPath,call Base(r.Resolver.fs,path)])
+//@ flow real-path-from-real-path C11: func=(resolverQuery).dirInfoUncached ; in=resolver ; site=store dirInfo.absRealPath ; valuepath=call Symlink(*)|call Join(*,[*.absRealPath,call Base(*)])
 
 // ----------------------------------------------------------------------------------------------
 // C16 (zero-annotation safety sweep): for ALL arguments (no precondition), no index, slice, nil-dereference,
